@@ -54,6 +54,7 @@ type SnapCfg struct {
 	KeyExists     string      // replace (default, "") | ignore | error  (C20)
 	Bisync        bool        // bidirectional replay: every entry becomes a marker+commands transaction (C20/C04)
 	Filters       *FilterSpec // output filters (C10's snapshot stratum)
+	BisyncMode    string      // bidirectional replay mode (default sync); pipeline/parallel keep a frontier (C04)
 }
 
 func (c SnapCfg) String() string {
@@ -182,6 +183,9 @@ func (c SnapCfg) outputConfig(runID, cpName string) syncer.RedisOutputConfig {
 		CpTicker: time.Second, Resume: c.Resume, DBM: c.DBM, Filters: c.Filters}
 	if c.Bisync {
 		pc.Bisync, pc.Mode, pc.Parallelism = true, "sync", 1
+		if c.BisyncMode != "" {
+			pc.Mode = c.BisyncMode
+		}
 	}
 	oc := pc.outputConfig(runID, cpName)
 	oc.Redis.Version = c.TargetVersion
@@ -277,6 +281,13 @@ type SnapSim struct {
 	errText    string
 	reqCount   int
 
+	// the run loop's view (C04): RedisInput.Run asks the output for its start point before every round and runs the
+	// next round on the SAME output object; preStart asks before Send, ro is kept for the question after it
+	preStart bool
+	preSP    syncer.StartPoint
+	preErr   error
+	ro       *syncer.RedisOutput
+
 	pipe   *feedPipe
 	fed    int
 	cancel context.CancelFunc
@@ -336,6 +347,7 @@ func (ss *SnapSim) start() (restore func()) {
 	ss.cancel = cancel
 	ss.r.Net.SetTag(1)
 	ro := syncer.NewRedisOutput(ss.cfg.outputConfig(ss.runID, ss.cpName))
+	ss.ro = ro
 	ss.pipe = newFeedPipe()
 	rd := &stubReader{left: ss.cfg.Left, size: int64(len(ss.rdb)), runID: ss.runID, aof: false, pipe: ss.pipe}
 	rd.br = bufio.NewReaderSize(ss.pipe, ss.cfg.BufSize)
@@ -352,6 +364,9 @@ func (ss *SnapSim) start() (restore func()) {
 			ss.done, ss.err = true, err
 			ss.mu.Unlock()
 		}()
+		if ss.preStart {
+			ss.preSP, ss.preErr = ro.StartPoint(ctx, []string{ss.runID})
+		}
 		err = ro.Send(ctx, rd)
 	}()
 	return restore
